@@ -790,6 +790,7 @@ class JoinableQueue(_Shared):
             raise ValueError('task_done() called too many times')
         self._unfinished -= 1
         S.rec('q.task_done', self.role)
+        S.post_point('q.task_done+', self)
 
     def join(self):
         S.block_until(lambda: self._unfinished == 0, None, f'q.join {self.role}')
